@@ -97,5 +97,169 @@ pub mod utils { pub mod serde_workaround {
 //@   rule R33
 //@   rule R36
 //@   rule R37
+
+// ---- C13 "deserialising those bytes yields an equal message": what `serialize` writes for q, presented on input (`wire_of`), has no
+// duplicates, has every required member, and each member's entry decodes to q's member (an absent optional member is absent and q's
+// member is its default, None).  With `visit_map`'s contract: a sound input of that shape is accepted and the message read equals q.
+// (proved by cases over which optional members are present)
+pub proof fn lemma_round_trip(q: Request)
+    ensures ({ let e = wire_of(ctap_entries(q)); let n = e.len() as int;
+        &&& dup_free(e, n)
+        &&& member::<String>(e, n, Ident::rp_id) == Some(q.rp_id)
+        &&& member::<Bytes>(e, n, Ident::client_data_hash) == Some(q.client_data_hash)
+        &&& q.allow_list == (match member::<Option<Vec<PublicKeyCredentialDescriptor>>>(e, n, Ident::allow_list) { Some(x) => x, None => <Option<Vec<PublicKeyCredentialDescriptor>> as VxDefault>::vx_default() })
+        &&& q.extensions == (match member::<Option<ExtensionInputs>>(e, n, Ident::extensions) { Some(x) => x, None => <Option<ExtensionInputs> as VxDefault>::vx_default() })
+        &&& member::<Options>(e, n, Ident::options) == Some(q.options)
+        &&& q.pin_auth == (match member::<Option<Bytes>>(e, n, Ident::pin_auth) { Some(x) => x, None => <Option<Bytes> as VxDefault>::vx_default() })
+        &&& q.pin_protocol == (match member::<Option<u8>>(e, n, Ident::pin_protocol) { Some(x) => x, None => <Option<u8> as VxDefault>::vx_default() })
+    })
+{
+    broadcast use axiom_member_round_trip;
+    reveal_with_fuel(occ, 9);
+    reveal_with_fuel(dup_free, 9);
+    let e = wire_of(ctap_entries(q));
+    assert(e.len() == ctap_entries(q).len());
+    if q.allow_list is Some {
+        if q.extensions is Some {
+            if q.pin_auth is Some {
+                if q.pin_protocol is Some {
+                    assert(ctap_entries(q).len() == 7);
+                    assert(e[0] == (DeKey::U(1), ser_leaf(q.rp_id)));
+                    assert(e[1] == (DeKey::U(2), ser_leaf(q.client_data_hash)));
+                    assert(e[2] == (DeKey::U(3), ser_leaf(q.allow_list)));
+                    assert(e[3] == (DeKey::U(4), ser_leaf(q.extensions)));
+                    assert(e[4] == (DeKey::U(5), ser_leaf(q.options)));
+                    assert(e[5] == (DeKey::U(6), ser_leaf(q.pin_auth)));
+                    assert(e[6] == (DeKey::U(7), ser_leaf(q.pin_protocol)));
+                } else {
+                    assert(ctap_entries(q).len() == 6);
+                    assert(e[0] == (DeKey::U(1), ser_leaf(q.rp_id)));
+                    assert(e[1] == (DeKey::U(2), ser_leaf(q.client_data_hash)));
+                    assert(e[2] == (DeKey::U(3), ser_leaf(q.allow_list)));
+                    assert(e[3] == (DeKey::U(4), ser_leaf(q.extensions)));
+                    assert(e[4] == (DeKey::U(5), ser_leaf(q.options)));
+                    assert(e[5] == (DeKey::U(6), ser_leaf(q.pin_auth)));
+                }
+            } else {
+                if q.pin_protocol is Some {
+                    assert(ctap_entries(q).len() == 6);
+                    assert(e[0] == (DeKey::U(1), ser_leaf(q.rp_id)));
+                    assert(e[1] == (DeKey::U(2), ser_leaf(q.client_data_hash)));
+                    assert(e[2] == (DeKey::U(3), ser_leaf(q.allow_list)));
+                    assert(e[3] == (DeKey::U(4), ser_leaf(q.extensions)));
+                    assert(e[4] == (DeKey::U(5), ser_leaf(q.options)));
+                    assert(e[5] == (DeKey::U(7), ser_leaf(q.pin_protocol)));
+                } else {
+                    assert(ctap_entries(q).len() == 5);
+                    assert(e[0] == (DeKey::U(1), ser_leaf(q.rp_id)));
+                    assert(e[1] == (DeKey::U(2), ser_leaf(q.client_data_hash)));
+                    assert(e[2] == (DeKey::U(3), ser_leaf(q.allow_list)));
+                    assert(e[3] == (DeKey::U(4), ser_leaf(q.extensions)));
+                    assert(e[4] == (DeKey::U(5), ser_leaf(q.options)));
+                }
+            }
+        } else {
+            if q.pin_auth is Some {
+                if q.pin_protocol is Some {
+                    assert(ctap_entries(q).len() == 6);
+                    assert(e[0] == (DeKey::U(1), ser_leaf(q.rp_id)));
+                    assert(e[1] == (DeKey::U(2), ser_leaf(q.client_data_hash)));
+                    assert(e[2] == (DeKey::U(3), ser_leaf(q.allow_list)));
+                    assert(e[3] == (DeKey::U(5), ser_leaf(q.options)));
+                    assert(e[4] == (DeKey::U(6), ser_leaf(q.pin_auth)));
+                    assert(e[5] == (DeKey::U(7), ser_leaf(q.pin_protocol)));
+                } else {
+                    assert(ctap_entries(q).len() == 5);
+                    assert(e[0] == (DeKey::U(1), ser_leaf(q.rp_id)));
+                    assert(e[1] == (DeKey::U(2), ser_leaf(q.client_data_hash)));
+                    assert(e[2] == (DeKey::U(3), ser_leaf(q.allow_list)));
+                    assert(e[3] == (DeKey::U(5), ser_leaf(q.options)));
+                    assert(e[4] == (DeKey::U(6), ser_leaf(q.pin_auth)));
+                }
+            } else {
+                if q.pin_protocol is Some {
+                    assert(ctap_entries(q).len() == 5);
+                    assert(e[0] == (DeKey::U(1), ser_leaf(q.rp_id)));
+                    assert(e[1] == (DeKey::U(2), ser_leaf(q.client_data_hash)));
+                    assert(e[2] == (DeKey::U(3), ser_leaf(q.allow_list)));
+                    assert(e[3] == (DeKey::U(5), ser_leaf(q.options)));
+                    assert(e[4] == (DeKey::U(7), ser_leaf(q.pin_protocol)));
+                } else {
+                    assert(ctap_entries(q).len() == 4);
+                    assert(e[0] == (DeKey::U(1), ser_leaf(q.rp_id)));
+                    assert(e[1] == (DeKey::U(2), ser_leaf(q.client_data_hash)));
+                    assert(e[2] == (DeKey::U(3), ser_leaf(q.allow_list)));
+                    assert(e[3] == (DeKey::U(5), ser_leaf(q.options)));
+                }
+            }
+        }
+    } else {
+        if q.extensions is Some {
+            if q.pin_auth is Some {
+                if q.pin_protocol is Some {
+                    assert(ctap_entries(q).len() == 6);
+                    assert(e[0] == (DeKey::U(1), ser_leaf(q.rp_id)));
+                    assert(e[1] == (DeKey::U(2), ser_leaf(q.client_data_hash)));
+                    assert(e[2] == (DeKey::U(4), ser_leaf(q.extensions)));
+                    assert(e[3] == (DeKey::U(5), ser_leaf(q.options)));
+                    assert(e[4] == (DeKey::U(6), ser_leaf(q.pin_auth)));
+                    assert(e[5] == (DeKey::U(7), ser_leaf(q.pin_protocol)));
+                } else {
+                    assert(ctap_entries(q).len() == 5);
+                    assert(e[0] == (DeKey::U(1), ser_leaf(q.rp_id)));
+                    assert(e[1] == (DeKey::U(2), ser_leaf(q.client_data_hash)));
+                    assert(e[2] == (DeKey::U(4), ser_leaf(q.extensions)));
+                    assert(e[3] == (DeKey::U(5), ser_leaf(q.options)));
+                    assert(e[4] == (DeKey::U(6), ser_leaf(q.pin_auth)));
+                }
+            } else {
+                if q.pin_protocol is Some {
+                    assert(ctap_entries(q).len() == 5);
+                    assert(e[0] == (DeKey::U(1), ser_leaf(q.rp_id)));
+                    assert(e[1] == (DeKey::U(2), ser_leaf(q.client_data_hash)));
+                    assert(e[2] == (DeKey::U(4), ser_leaf(q.extensions)));
+                    assert(e[3] == (DeKey::U(5), ser_leaf(q.options)));
+                    assert(e[4] == (DeKey::U(7), ser_leaf(q.pin_protocol)));
+                } else {
+                    assert(ctap_entries(q).len() == 4);
+                    assert(e[0] == (DeKey::U(1), ser_leaf(q.rp_id)));
+                    assert(e[1] == (DeKey::U(2), ser_leaf(q.client_data_hash)));
+                    assert(e[2] == (DeKey::U(4), ser_leaf(q.extensions)));
+                    assert(e[3] == (DeKey::U(5), ser_leaf(q.options)));
+                }
+            }
+        } else {
+            if q.pin_auth is Some {
+                if q.pin_protocol is Some {
+                    assert(ctap_entries(q).len() == 5);
+                    assert(e[0] == (DeKey::U(1), ser_leaf(q.rp_id)));
+                    assert(e[1] == (DeKey::U(2), ser_leaf(q.client_data_hash)));
+                    assert(e[2] == (DeKey::U(5), ser_leaf(q.options)));
+                    assert(e[3] == (DeKey::U(6), ser_leaf(q.pin_auth)));
+                    assert(e[4] == (DeKey::U(7), ser_leaf(q.pin_protocol)));
+                } else {
+                    assert(ctap_entries(q).len() == 4);
+                    assert(e[0] == (DeKey::U(1), ser_leaf(q.rp_id)));
+                    assert(e[1] == (DeKey::U(2), ser_leaf(q.client_data_hash)));
+                    assert(e[2] == (DeKey::U(5), ser_leaf(q.options)));
+                    assert(e[3] == (DeKey::U(6), ser_leaf(q.pin_auth)));
+                }
+            } else {
+                if q.pin_protocol is Some {
+                    assert(ctap_entries(q).len() == 4);
+                    assert(e[0] == (DeKey::U(1), ser_leaf(q.rp_id)));
+                    assert(e[1] == (DeKey::U(2), ser_leaf(q.client_data_hash)));
+                    assert(e[2] == (DeKey::U(5), ser_leaf(q.options)));
+                    assert(e[3] == (DeKey::U(7), ser_leaf(q.pin_protocol)));
+                } else {
+                    assert(ctap_entries(q).len() == 3);
+                    assert(e[0] == (DeKey::U(1), ser_leaf(q.rp_id)));
+                    assert(e[1] == (DeKey::U(2), ser_leaf(q.client_data_hash)));
+                    assert(e[2] == (DeKey::U(5), ser_leaf(q.options)));
+                }
+            }
+        }
+    }
+}
 } // verus!
 fn main() {}
